@@ -113,6 +113,18 @@ def verify_contract(contract, X, canary=True):
                     rc = sc.check()
                     if rc != z3.unknown:
                         break
+                if rc == z3.unknown and getattr(contract, 'canary_witness', None):
+                    # quantified models make plain satisfiability undecidable for the solver; the contract may name a corner
+                    # of its input space (e.g. "the empty collection") in which the quantifiers range over nothing: a model
+                    # there is a model of the path condition as well (the extra constraints only narrow it)
+                    sc = z3.Solver()
+                    sc.set('timeout', 8000)
+                    for p in vc.pc:
+                        sc.add(p)
+                    for w in contract.canary_witness:
+                        sc.add(w)
+                    if sc.check() == z3.sat:
+                        rc = z3.sat
                 if rc == z3.sat:
                     exit_sat = True
                 elif rc == z3.unknown:
